@@ -13,7 +13,7 @@ def run(cx):
     cx.rule("C07.R1", "busy gate: send() writes nothing unless both connection slots are present; the absent edge returns ConnectionBusy")
     cx.rule("C07.R2", "one critical section: send() acquires the connection lock exactly once (a write lock) and the busy test, both take()s and the write happen under that guard")
     cx.rule("C07.R3", "slot pairing: recv() returns the slots exactly on the final reply, on every path (shared with C05.R2)")
-    cx.rule("C07.R4", "once-only: send() consumes method and request with take() and fails with MethodCalledAlready, before touching the connection's stream, when either is gone")
+    cx.rule("C07.R4", "once-only: what send() puts into the request is consumed from the call object with Option::take(); when a take() finds nothing send() fails with MethodCalledAlready before touching the connection's stream")
     cx.rule("C07.R5", "success iff no error member: recv() returns Ok only behind reply.error.is_some()==false and otherwise the error built by ErrorKind::from(reply)")
     cx.rule("C07.R6", "error-name tables agree: From<Reply> for ErrorKind, ErrorKind::is_error, the server-side emitters and the built-in IDL text list the same four names with the same parameter member; unknown names carry the whole reply")
     send = cc.Fn(cx, cc.MC + "send")
@@ -29,25 +29,39 @@ def r1_r2_r4(cx, f):
     site = body.sp
     writes = [t for t in body.calls("=write_all", "=write", "=flush") if "io::" in t.callee.resolved or "Write" in (t.callee.trait or "")]
     if not writes: raise AnchorMissing("send: no write")
-    nr = cc.none_checks(f, "reader", "Connection"); nw = cc.none_checks(f, "writer", "Connection")
     busy = cc.err_variant_blocks(body, "ConnectionBusy")
-    gates = nr + nw
-    good = bool(nr) and bool(nw) and bool(busy)
+    # path form: every execution that reaches a write has seen `conn.reader` and `conn.writer` present (is_none()==false or
+    # is_some()==true, however the test is spelled or wrapped); an execution that saw one of them absent ends in ConnectionBusy
+    from vlib.cfg import enumerate_paths, ref_base
+    from vlib.pathcond import literals
+    def slot_of(term):
+        """'reader'/'writer' when the call's receiver is that slot of the Connection"""
+        if not term.args or term.args[0].place is None: return None
+        for l in ref_chain(du, term.args[0].place.l):
+            for k, d in du.value_defs(l):
+                if k == "stmt" and d.kind == "assign" and d.rplace is not None and d.rplace.fields()[-1:] in (["reader"], ["writer"]) and "Connection" in body.ty(ref_base(du, d.rplace.l)[0]) + body.ty(d.rplace.l):
+                    return d.rplace.fields()[-1]
+        return None
+    wblocks = {w.bb for w in writes}
+    limit = []
+    paths = enumerate_paths(cfg, 0, lambda blk: blk.idx in wblocks or blk.term.kind == "return", du=du, on_limit=lambda: limit.append(1))
     why = []
-    if good:
-        for t, c in gates:
-            ab = cc.absent_edge(t, c)
-            r = cfg.after(ab)
-            if any(w.bb in r for w in writes): why.append("a write is reachable although conn.%s is None" % ("reader" if (t, c) in nr else "writer"))
-            if not any(b in r for b in busy): why.append("the absent edge does not return ConnectionBusy")
-        present = {cc.present_edge(t, c) for t, c in gates}
-        # every write is behind both presence edges
-        for w in writes:
-            for t, c in gates:
-                if not cfg.edge_dominates(cc.present_edge(t, c), w.bb): why.append("%s at %s is not dominated by the presence test of both slots" % (w.callee.name, w.sp)); break
-    else:
-        why.append("busy test not found (reader tests %d, writer tests %d, ConnectionBusy returns %d)" % (len(nr), len(nw), len(busy)))
-    cx.check(not why, "C07.R1", "varlink:send:busy-gate", site, "; ".join(sorted(set(why))[:3]), note_ok="reader.is_none() || writer.is_none() -> Err(ConnectionBusy); %d writes behind both presence edges" % len(writes))
+    if limit: why.append("too many paths in send()")
+    nwp = 0; nabs = 0; seen_slots = set()
+    for p in paths:
+        lits = [(slot_of(l.obj), l) for l in literals(body, p) if l.kind == "call" and l.obj.callee.name in ("is_none", "is_some")]
+        present = {sl_ for sl_, l in lits if sl_ and ((l.obj.callee.name == "is_some") == l.truth)}
+        absent = {sl_ for sl_, l in lits if sl_ and ((l.obj.callee.name == "is_none") == l.truth)}
+        seen_slots |= present | absent
+        if p[-1] in wblocks:
+            nwp += 1
+            if not {"reader", "writer"} <= present: why.append("a write is reached without both conn.reader and conn.writer having been found present (%s)" % sorted(present))
+            if absent: why.append("a write is reached although conn.%s was found absent" % sorted(absent)[0])
+        elif absent:
+            nabs += 1
+            if not any(b in p for b in busy): why.append("an execution that finds conn.%s absent does not return ConnectionBusy" % sorted(absent)[0])
+    if not nwp or not nabs or not busy: why.append("busy test not found (paths to a write %d, paths seeing a slot absent %d, ConnectionBusy returns %d)" % (nwp, nabs, len(busy)))
+    cx.check(not why, "C07.R1", "varlink:send:busy-gate", site, "; ".join(sorted(set(why))[:3]), note_ok="%d paths reach a write, all behind both presence tests; %d paths see a slot absent and return ConnectionBusy" % (nwp, nabs))
     # R2
     locks = cc.lock_acquisitions(f)
     why = []
@@ -68,30 +82,49 @@ def r1_r2_r4(cx, f):
         for d in drops:
             if lastw.bb in cfg.reach(d.target) :
                 why.append("the connection guard is released at %s before the request is written" % d.sp)
-        for t in takes + [g[0] for g in gates]:
+        slot_tests = [t for t in body.calls("=is_none", "=is_some") if slot_of(t)]
+        for t in takes + slot_tests:
             if not cfg.dominates(L.bb, t.bb): why.append("slot access at %s is not under the lock" % t.sp)
     cx.check(not why, "C07.R2", "varlink:send:single-critical-section", site, "; ".join(sorted(set(why))[:3]),
              note_ok="one RwLock::write(); busy test, take() x2 and the write under the same guard")
-    # R4
-    tm = cc.takes_of(f, "method", "MethodCall"); tr = cc.takes_of(f, "request", "MethodCall")
+    # R4: whatever goes into the request (Request::create) is taken out of the call object with Option::take(); everything that
+    #     touches the connection's stream happens behind the Some edge of every such take
+    from vlib.cfg import ref_base
+    creates = [t for t in body.calls("Request::<'a>::create", "=create") if t.callee.name == "create" and "Request" in t.callee.path]
     already = cc.err_variant_blocks(body, "MethodCalledAlready")
     why = []
-    if len(tm) != 1 or len(tr) != 1 or not already: why.append("method/request are not consumed with take() or MethodCalledAlready is never returned (takes %d/%d)" % (len(tm), len(tr)))
+    req_takes = []
+    sl_take = Slice(body, du, extra_pass=("=to_value", "=map_err", "=into", "=from"))
+    for c in creates:
+        for a in c.args:
+            for k, o in sl_take.origins(a):
+                if k == "call" and o.callee.name == "take" and "Option" in o.callee.path and o.args and o.args[0].place is not None and ref_base(du, o.args[0].place.l)[0] == 1 and o not in req_takes:
+                    req_takes.append(o)
+    if len(creates) != 1 or not req_takes or not already:
+        why.append("the request is not built from values consumed with take() from the call object, or MethodCalledAlready is never returned (Request::create calls %d, takes %d)" % (len(creates), len(req_takes)))
     else:
-        # writes and connection takes only behind both Some edges of the (method, request) match
-        some_edges = []
+        some_edges = []; per_take = {id(o): [] for o in req_takes}
         for b in body.blocks:
             if b.cleanup or b.term.kind != "switch": continue
             c = switch_cond(body, du, b.term)
             if c.kind == "discr":
                 orig = [o for k, o in f.sl.origins(c.place) if k == "call"]
-                if any(o in tm or o in tr for o in orig): some_edges.append(variant_edge(b.term, 1))
-        if len(some_edges) < 2: why.append("the results of both take() calls are not matched on Some")
+                for o in orig:
+                    if id(o) in per_take:
+                        e = variant_edge(b.term, 1); some_edges.append(e); per_take[id(o)].append(e)
+        if any(not v for v in per_take.values()): why.append("the result of a take() is not matched on Some")
         for w in writes + cc.takes_of(f, "reader", "Connection") + cc.takes_of(f, "writer", "Connection"):
-            nd = sum(1 for e in set(some_edges) if cfg.edge_dominates(e, w.bb))
-            if nd < 2: why.append("%s at %s is reachable when method/request were already consumed" % (w.callee.name, w.sp))
+            if not all(any(cfg.edge_dominates(e, w.bb) for e in v) for v in per_take.values()):
+                why.append("%s at %s is reachable when the request was already consumed" % (w.callee.name, w.sp))
         if not any(b in cfg.reach(0) for b in already): why.append("MethodCalledAlready unreachable")
-    cx.check(not why, "C07.R4", "varlink:send:once-only", site, "; ".join(sorted(set(why))[:3]), note_ok="(method.take(), request.take()) both Some, else Err(MethodCalledAlready) before the stream is touched")
+        # the None side of each take leads to MethodCalledAlready, not onwards
+        for e in set(some_edges):
+            t = body.blocks[e[0]].term
+            for lab, dst in cfg.succ[e[0]]:
+                if (e[0], lab, dst) == e: continue
+                r = cfg.after((e[0], lab, dst))
+                if dst in cfg.reach(0) and any(c.bb in r for c in creates): why.append("the request is still sent when a take() returned None")
+    cx.check(not why, "C07.R4", "varlink:send:once-only", site, "; ".join(sorted(set(why))[:3]), note_ok="%d take() result(s) feed Request::create, all matched on Some, else Err(MethodCalledAlready) before the stream is touched" % len(req_takes))
 
 
 def r5(cx):
